@@ -1,3 +1,234 @@
+import Bch.Proofs.C03Enum
+import Bch.Proofs.C03Lift
+/-!
+# C03 — the address checksums detect every corruption they are specified to detect
+
+Architecture (details in `Bch/Proofs/Polymod.lean`, `C03Lift.lean`, `C03Enum.lean`):
+
+1. both checksum step functions are GF(2)-linear in (state, symbol) — `polyModStep_linear`,
+   `bech32_polymodStep_linear`, `polyMod_affine`, `bech32_affine` (kernel-only);
+2. `checkIndep cols n k` is an XOR-basis depth-first search over the position sets of size ≤ `k` *that
+   contain the last position*; because stepping with a zero symbol is injective on the state, this is
+   enough for all position sets (`checkIndep_sound`, kernel-only, generic in the step function);
+3. the two enumeration facts `cashaddr_indep_112_5`, `bech32_indep_89_4` are evaluated by
+   `native_decide` (the only use in the project, confined to `Bch/Proofs/C03Enum.lean`);
+4. the lift to `DecodeCashAddress` / `bech32.Decode` on byte strings (kernel-only given 3.).
+
+`hamming a b` is the number of positions at which two byte strings of equal length differ.
+Theorems whose `#print axioms` shows a `…native_decide.ax_*` axiom are exactly those below the line
+"depend on the enumeration facts".
+-/
 namespace Bch.Props.C03
-theorem placeholder : True := trivial
+open Bch Bch.Model Bch.Proofs.Polymod Bch.Proofs.C03Lift
+
+/-! ## linearity (kernel-only) -/
+
+/-- the CashAddr step is GF(2)-linear in (state, symbol), for all states and symbols -/
+theorem polyModStep_linear (c c' : Nat) (d d' : UInt8) :
+    CashAddr.polyModStep (c ^^^ c') (d ^^^ d') = CashAddr.polyModStep c d ^^^ CashAddr.polyModStep c' d' := by
+  simp only [polyModStep_eq, UInt8.toNat_xor, stepC_xor]
+
+/-- the bech32 step is GF(2)-linear in (state, symbol) -/
+theorem bech32_polymodStep_linear (c c' d d' : Nat) :
+    Bech32.polymodStep (c ^^^ c') (d ^^^ d') = Bech32.polymodStep c d ^^^ Bech32.polymodStep c' d' := by
+  simp only [polymodStep_eq, stepB_xor]
+
+/-- `polyMod` is affine: the remainder of `w ⊕ e` is the remainder of `w` XOR the syndrome of `e`
+    (which does not depend on `w`) -/
+theorem polyMod_affine (w e : Bytes) (hl : w.length = e.length) :
+    CashAddr.polyMod (List.zipWith (· ^^^ ·) w e) = CashAddr.polyMod w ^^^ e.foldl CashAddr.polyModStep 0 := by
+  unfold CashAddr.polyMod
+  simp only [foldl_polyModStep]
+  have hz : (List.zipWith (· ^^^ ·) w e).map (·.toNat) =
+      List.zipWith (· ^^^ ·) (w.map (·.toNat)) (e.map (·.toNat)) := by
+    rw [List.zipWith_map, List.map_zipWith]; simp only [UInt8.toNat_xor]
+  have := linStepC.fold_xor (w.map (·.toNat)) (e.map (·.toNat)) 1 0 (by simpa using hl)
+  rw [show (1:Nat) ^^^ 0 = 1 from rfl] at this
+  rw [hz, this]
+  ac_rfl
+
+/-- `bech32Polymod` is affine in the same sense -/
+theorem bech32_affine (w e : List Nat) (hl : w.length = e.length) :
+    Bech32.polymod (List.zipWith (· ^^^ ·) w e) = Bech32.polymod w ^^^ e.foldl Bech32.polymodStep 0 := by
+  unfold Bech32.polymod
+  simp only [foldl_polymodStep]
+  exact linStepB.fold_xor w e 1 0 hl
+
+/-! ## soundness of the search (kernel-only) -/
+
+/-- **`checkIndep_sound`**: for any step function that is linear, keeps `W`-bit states and is injective
+    on zero symbols: if the search over the column table succeeds, every non-zero error word of length
+    ≤ `n` over symbols `< 32` with at most `k` non-zero symbols has a non-zero syndrome. -/
+theorem checkIndep_sound {W : Nat} {step : Nat → Nat → Nat} (h : LinStep W step) (n k : Nat)
+    (hc : checkIndep (cols step n) n k = true) (e : List Nat) (hlen : e.length ≤ n)
+    (hsym : ∀ d ∈ e, d < 32) (hw : (e.filter (· ≠ 0)).length ≤ k) (hne : ∃ d ∈ e, d ≠ 0) :
+    e.foldl step 0 ≠ 0 :=
+  h.mindist n k hc e hlen hsym (by unfold weight; rw [List.countP_eq_length_filter]; exact hw) hne
+
+/-- the hypotheses of `checkIndep_sound` hold for the (table forms of the) two step functions -/
+theorem linStep_cashaddr : LinStep 40 stepC ∧ ∀ c d, CashAddr.polyModStep c d = stepC c d.toNat :=
+  ⟨linStepC, polyModStep_eq⟩
+theorem linStep_bech32 : LinStep 30 stepB ∧ ∀ c d, Bech32.polymodStep c d = stepB c d :=
+  ⟨linStepB, polymodStep_eq⟩
+
+/-! ## depend on the enumeration facts (`native_decide` axioms appear from here on) -/
+
+theorem cashaddr_indep_112_5 : checkIndep (cols stepC 112) 112 5 = true :=
+  Bch.Proofs.C03Enum.cashaddr_indep_112_5
+theorem bech32_indep_89_4 : checkIndep (cols stepB 89) 89 4 = true :=
+  Bch.Proofs.C03Enum.bech32_indep_89_4
+
+/-- every non-zero error pattern of at most 5 symbols within 112 symbols has a non-zero CashAddr syndrome -/
+theorem cashaddr_syndrome_ne_zero (e : Bytes) (hlen : e.length ≤ 112) (hsym : ∀ d ∈ e, d.toNat < 32)
+    (hw : (e.filter (· ≠ 0)).length ≤ 5) (hne : ∃ d ∈ e, d ≠ 0) :
+    e.foldl CashAddr.polyModStep 0 ≠ 0 := by
+  rw [foldl_polyModStep]
+  apply checkIndep_sound linStepC 112 5 cashaddr_indep_112_5
+  · simpa using hlen
+  · intro d hd; obtain ⟨c, hc, rfl⟩ := List.mem_map.mp hd; exact hsym c hc
+  · rw [List.filter_map, List.length_map]
+    refine Nat.le_trans (Nat.le_of_eq ?_) hw
+    congr 1; apply List.filter_congr; intro c _
+    simp only [Function.comp, ne_eq, decide_not, Bool.not_eq_eq_eq_not, Bool.not_not, decide_eq_decide]
+    exact ⟨fun h => UInt8.toNat_inj.mp (by simpa using h), fun h => by simp [h]⟩
+  · obtain ⟨d, hd, hd0⟩ := hne
+    exact ⟨d.toNat, List.mem_map.mpr ⟨d, hd, rfl⟩, fun h => hd0 (UInt8.toNat_inj.mp (by simpa using h))⟩
+
+/-- every non-zero error pattern of at most 4 symbols within 89 symbols has a non-zero bech32 syndrome -/
+theorem bech32_syndrome_ne_zero (e : List Nat) (hlen : e.length ≤ 89) (hsym : ∀ d ∈ e, d < 32)
+    (hw : (e.filter (· ≠ 0)).length ≤ 4) (hne : ∃ d ∈ e, d ≠ 0) :
+    e.foldl Bech32.polymodStep 0 ≠ 0 := by
+  rw [foldl_polymodStep]
+  exact checkIndep_sound linStepB 89 4 bech32_indep_89_4 e hlen hsym hw hne
+
+/-- **C03, CashAddr (headline).** Let `pre ++ ":" ++ body` be accepted by `DecodeCashAddress` (`pre` is
+    the part before the first `:`), with at most 112 characters after the separator. Replace between 1 and
+    5 characters of `body` by ANY other bytes (`body'`): the decoder returns an error. -/
+theorem C03_cashaddr (pre body body' : Bytes) (r : Bytes × Bytes) (hsep : 58 ∉ pre)
+    (hok : CashAddr.DecodeCashAddress (pre ++ 58 :: body) = .ok r)
+    (hlen : body.length ≤ 112) (hl : body'.length = body.length)
+    (h1 : 1 ≤ hamming body body') (h5 : hamming body body' ≤ 5) :
+    ∃ e, CashAddr.DecodeCashAddress (pre ++ 58 :: body') = .error e := by
+  apply not_ok_error
+  intro r' h'
+  have hne : body ≠ body' := by intro he; rw [he, hamming_self] at h1; omega
+  have := cashaddr_far cashaddr_indep_112_5 pre body body' hsep hl hlen r r' hok h' hne
+  omega
+
+/-- when moreover every byte of the changed part is a charset character and the string does not mix
+    cases, the error is exactly the checksum error (all other replacement bytes — a letter of the other
+    case, `:`, characters outside the charset — are rejected by `C03_cashaddr` with some error) -/
+theorem C03_cashaddr_charset (pre body body' : Bytes) (r : Bytes × Bytes) (hsep : 58 ∉ pre)
+    (hok : CashAddr.DecodeCashAddress (pre ++ 58 :: body) = .ok r)
+    (hlen : body.length ≤ 112) (hl : body'.length = body.length)
+    (h1 : 1 ≤ hamming body body') (h5 : hamming body body' ≤ 5)
+    (hcs : ∀ c ∈ body', (CashAddr.charsetRev c).isSome)
+    (hcase : ¬ ((∃ c ∈ pre ++ body', 65 ≤ c ∧ c ≤ 90) ∧ (∃ c ∈ pre ++ body', 97 ≤ c ∧ c ≤ 122))) :
+    CashAddr.DecodeCashAddress (pre ++ 58 :: body') = .error .checksumMismatch := by
+  apply cashaddr_mismatch pre body body' hsep r hok hl hcs hcase
+  intro r' hr'
+  obtain ⟨e, he⟩ := C03_cashaddr pre body body' r hsep hok hlen hl h1 h5
+  rw [he] at hr'; cases hr'
+
+/-- two different accepted CashAddr strings with the same prefix and the same length (≤ 112 characters
+    after the separator) differ in at least six positions -/
+theorem C03_cashaddr_distance (pre body body' : Bytes) (r r' : Bytes × Bytes) (hsep : 58 ∉ pre)
+    (hok : CashAddr.DecodeCashAddress (pre ++ 58 :: body) = .ok r)
+    (hok' : CashAddr.DecodeCashAddress (pre ++ 58 :: body') = .ok r')
+    (hlen : body.length ≤ 112) (hl : body'.length = body.length) (hne : body ≠ body') :
+    6 ≤ hamming body body' :=
+  cashaddr_far cashaddr_indep_112_5 pre body body' hsep hl hlen r r' hok hok' hne
+
+/-- **C03, bech32 (headline).** Let `hrp ++ "1" ++ dat` be accepted by `Decode` (no `'1'` in `dat`, so
+    `dat` is the data part; acceptance implies total length ≤ 90), where the hrp contains a letter.
+    Replace between 1 and 4 characters of `dat` by other bytes different from `'1'`: `Decode` returns an
+    error. (A substituted `'1'` would move the separator; see DESIGN.md. For an hrp without letters see
+    `C03_bech32_anycase` and the example after it.) -/
+theorem C03_bech32 (hrp dat dat' : Bytes) (r : Bytes × Bytes) (h1 : 49 ∉ dat) (h1' : 49 ∉ dat')
+    (hletter : ∃ c ∈ hrp, (97 ≤ c ∧ c ≤ 122) ∨ (65 ≤ c ∧ c ≤ 90))
+    (hok : Bech32.Decode (hrp ++ 49 :: dat) = .ok r) (hl : dat'.length = dat.length)
+    (hd1 : 1 ≤ hamming dat dat') (hd4 : hamming dat dat' ≤ 4) :
+    ∃ e, Bech32.Decode (hrp ++ 49 :: dat') = .error e := by
+  apply not_ok_error
+  intro r' h'
+  have hne : dat ≠ dat' := by intro he; rw [he, hamming_self] at hd1; omega
+  have hc := bech32_case hrp dat dat' hletter (bech_ok hrp dat h1 r hok).2.1 (bech_ok hrp dat' h1' r' h').2.1 hne
+  have := bech32_far bech32_indep_89_4 hrp dat dat' h1 h1' hl r r' hok h' hc
+  omega
+
+/-- the same for an arbitrary hrp: at most 4 substitutions in the data part give an error unless the new
+    string is a case variant of the old one (bech32 accepts the all-upper-case form of a valid string) -/
+theorem C03_bech32_anycase (hrp dat dat' : Bytes) (r : Bytes × Bytes) (h1 : 49 ∉ dat) (h1' : 49 ∉ dat')
+    (hok : Bech32.Decode (hrp ++ 49 :: dat) = .ok r) (hl : dat'.length = dat.length)
+    (hcase : dat.map Bech32.toLower ≠ dat'.map Bech32.toLower) (hd4 : hamming dat dat' ≤ 4) :
+    ∃ e, Bech32.Decode (hrp ++ 49 :: dat') = .error e := by
+  apply not_ok_error
+  intro r' h'
+  have := bech32_far bech32_indep_89_4 hrp dat dat' h1 h1' hl r r' hok h' hcase
+  omega
+
+/-- two accepted bech32 strings with the same hrp and length that are not case variants of each other
+    differ in at least five positions of the data part -/
+theorem C03_bech32_distance (hrp dat dat' : Bytes) (r r' : Bytes × Bytes) (h1 : 49 ∉ dat) (h1' : 49 ∉ dat')
+    (hok : Bech32.Decode (hrp ++ 49 :: dat) = .ok r) (hok' : Bech32.Decode (hrp ++ 49 :: dat') = .ok r')
+    (hl : dat'.length = dat.length) (hcase : dat.map Bech32.toLower ≠ dat'.map Bech32.toLower) :
+    5 ≤ hamming dat dat' :=
+  bech32_far bech32_indep_89_4 hrp dat dat' h1 h1' hl r r' hok hok' hcase
+
+/-! ## non-vacuity -/
+
+section examples
+private def preX : Bytes := Bytes.ofString "bitcoincash"
+/-- a 256-bit test vector of the CashAddr specification -/
+private def bodyX : Bytes := Bytes.ofString "qvch8mmxy0rtfrlarg7ucrxxfzds5pamg73h7370aa87d80gyhqxq5nlegake"
+/-- one character replaced -/
+private def bodyX1 : Bytes := Bytes.ofString "qvch8mmxy0rtfrlarg7ucrxxfzds5pamg73h7370aa87d80gyhqxq5nlegakq"
+/-- six characters replaced: another valid string -/
+private def bodyX6 : Bytes := Bytes.ofString "qvch8mmxy0rfnrlarg7ucrxxfzds5pamg73h7370aa87d80gyh6xq5nvegahn"
+
+/-- the hypotheses of `C03_cashaddr` are satisfiable … -/
+example : 58 ∉ preX ∧ (∃ r, CashAddr.DecodeCashAddress (preX ++ 58 :: bodyX) = .ok r) ∧
+    bodyX.length ≤ 112 ∧ bodyX1.length = bodyX.length ∧ hamming bodyX bodyX1 = 1 :=
+  ⟨by decide +kernel, (isOk_iff _).mp (by decide +kernel), by decide +kernel, by decide +kernel,
+    by decide +kernel⟩
+/-- … and the corrupted string is indeed rejected (here with a checksum mismatch) -/
+example : CashAddr.DecodeCashAddress (preX ++ 58 :: bodyX1) = .error .checksumMismatch :=
+  (errOf_eq _ _).mp (by decide +kernel)
+/-- the bound 6 of `C03_cashaddr_distance` is attained: two accepted strings at distance exactly 6 -/
+example : (∃ r, CashAddr.DecodeCashAddress (preX ++ 58 :: bodyX) = .ok r) ∧
+    (∃ r, CashAddr.DecodeCashAddress (preX ++ 58 :: bodyX6) = .ok r) ∧
+    bodyX6.length = bodyX.length ∧ bodyX ≠ bodyX6 ∧ hamming bodyX bodyX6 = 6 :=
+  ⟨(isOk_iff _).mp (by decide +kernel), (isOk_iff _).mp (by decide +kernel), by decide +kernel,
+    by decide +kernel, by decide +kernel⟩
+
+private def hrpY : Bytes := Bytes.ofString "abcdef"
+/-- a valid test vector of BIP173 -/
+private def datY : Bytes := Bytes.ofString "qpzry9x8gf2tvdw0s3jn54khce6mua7lmqqqxw"
+private def datY1 : Bytes := Bytes.ofString "qpzry9x8gf2tvdw0s3jn54khce6mua7lmqqqxq"
+/-- five characters replaced: another valid string -/
+private def datY5 : Bytes := Bytes.ofString "qpzry9x8gf2tvdw7s3jn54khce6mu22lmqqq8q"
+
+/-- the hypotheses of `C03_bech32` are satisfiable … -/
+example : 49 ∉ datY ∧ 49 ∉ datY1 ∧ (∃ c ∈ hrpY, (97 ≤ c ∧ c ≤ 122) ∨ (65 ≤ c ∧ c ≤ 90)) ∧
+    (∃ r, Bech32.Decode (hrpY ++ 49 :: datY) = .ok r) ∧ datY1.length = datY.length ∧
+    hamming datY datY1 = 1 :=
+  ⟨by decide +kernel, by decide +kernel, ⟨97, by decide +kernel, by decide⟩,
+    (isOk_iff _).mp (by decide +kernel), by decide +kernel, by decide +kernel⟩
+example : Bech32.Decode (hrpY ++ 49 :: datY1) = .error .checksum := (errOf_eq _ _).mp (by decide +kernel)
+/-- the bound 5 of `C03_bech32_distance` is attained -/
+example : (∃ r, Bech32.Decode (hrpY ++ 49 :: datY) = .ok r) ∧ (∃ r, Bech32.Decode (hrpY ++ 49 :: datY5) = .ok r) ∧
+    datY5.length = datY.length ∧ datY.map Bech32.toLower ≠ datY5.map Bech32.toLower ∧
+    hamming datY datY5 = 5 :=
+  ⟨(isOk_iff _).mp (by decide +kernel), (isOk_iff _).mp (by decide +kernel), by decide +kernel,
+    by decide +kernel, by decide +kernel⟩
+
+/-- why `C03_bech32` needs a letter in the hrp (or `C03_bech32_anycase` its case hypothesis): with the
+    letterless hrp `"2"`, changing the two letters of the data part of the valid string `215830dl5257`
+    to upper case gives the valid string `215830DL5257` — two substitutions, both accepted -/
+example : (∃ r, Bech32.Decode (Bytes.ofString "215830dl5257") = .ok r) ∧
+    (∃ r, Bech32.Decode (Bytes.ofString "215830DL5257") = .ok r) ∧
+    hamming (Bytes.ofString "5830dl5257") (Bytes.ofString "5830DL5257") = 2 :=
+  ⟨(isOk_iff _).mp (by decide +kernel), (isOk_iff _).mp (by decide +kernel), by decide +kernel⟩
+end examples
+
 end Bch.Props.C03
